@@ -220,6 +220,16 @@ def boundary_font():
     pen = TTGlyphPen(glyphs); pen.addComponent("g000", (1, 0, 0, 1, 100, 0)); pen.addComponent("hair", (1, 0, 0, 1, 0, 0)); glyphs["comp1"] = pen.glyph(); order.append("comp1")
     pen = TTGlyphPen(glyphs); pen.addComponent("g001", (1, 0, 0, 1, 300, 10)); pen.addComponent("vhair", (1, 0, 0, 1, -200, 5)); glyphs["comp2"] = pen.glyph(); order.append("comp2")
     pen = TTGlyphPen(glyphs); pen.addComponent("comp1", (1, 0, 0, 1, 5, 5)); pen.addComponent("g002", (0.5, 0, 0, 0.5, 10, 10)); glyphs["comp3"] = pen.glyph(); order.append("comp3")
+    # glyph records of odd byte length: with glyf.padding 0/1 the offsets become odd, which only the long loca format can hold
+    for k, pts in enumerate(([(100, 0), (250, 400), (700, 0)], [(100, 0), (250, 400), (700, 0), (300, -50), (255, -60), (11, 12)])):
+        pen = TTGlyphPen(None); pen.moveTo(pts[0])
+        for q in pts[1:]: pen.lineTo(q)
+        pen.closePath(); glyphs["odd%d" % k] = pen.glyph(); order.append("odd%d" % k)
+    # nesting: a composite whose EARLIER component nests deeper than a later one (no other glyph of the font nests as deep)
+    pen = TTGlyphPen(glyphs); pen.addComponent("g003", (1, 0, 0, 1, 0, 0)); glyphs["lvl1"] = pen.glyph(); order.append("lvl1")
+    pen = TTGlyphPen(glyphs); pen.addComponent("lvl1", (1, 0, 0, 1, 30, 0)); glyphs["lvl2"] = pen.glyph(); order.append("lvl2")
+    pen = TTGlyphPen(glyphs); pen.addComponent("lvl2", (1, 0, 0, 1, 0, 0)); pen.addComponent("lvl1", (1, 0, 0, 1, 50, 0)); glyphs["deepfirst"] = pen.glyph(); order.append("deepfirst")
+    pen = TTGlyphPen(glyphs); pen.addComponent("lvl1", (1, 0, 0, 1, 0, 0)); pen.addComponent("g004", (1, 0, 0, 1, 0, 9)); pen.addComponent("g005", (1, 0, 0, 1, 0, 9)); glyphs["wide"] = pen.glyph(); order.append("wide")
     fb = FontBuilder(2048, isTTF=True)
     fb.setupGlyphOrder(order)
     fb.setupCharacterMap({0x41 + k: n for k, n in enumerate(order[1:60])})
@@ -272,12 +282,19 @@ def sweeps(tier, rng):
             f2.flavor = None
             P += validate_saved(_save(f2), "generated-roundtrip")
             yield (("generated-boundary-font", flavor), "; ".join(P[:6]) if P else None)
-        for pad in (1, 2, 4):
+        for pad in (0, 1, 2, 4):
             f3 = TTFont(io.BytesIO(plain), lazy=False)
             f3["glyf"].padding = pad
             for n in f3.getGlyphOrder(): f3["glyf"][n].expand(f3["glyf"])
             P = validate_saved(_save(f3), "generated-pad%d" % pad)
             yield (("generated-boundary-font", "padding=%d" % pad), "; ".join(P[:6]) if P else None)
+            # the same font as WOFF2 (glyph data re-aligned to 4 bytes: the compact loca format may change): the tables the WOFF2
+            # file reconstructs to — read raw, not re-saved — must agree with each other
+            f3.flavor = "woff2"; data = _save(f3)
+            r = TTFont(io.BytesIO(data), lazy=True).reader
+            raw = {t.encode("latin-1"): r[t] for t in r.keys()}
+            P = glyfspec.check_truetype(raw, None)
+            yield (("generated-boundary-font", "padding=%d" % pad, "woff2-reconstructed"), "; ".join(P[:6]) if P else None)
     def run_breakeven():
         """WOFF: tables whose zlib stream is exactly as long as the table (compLength == origLength means 'stored raw')"""
         import zlib
